@@ -226,6 +226,8 @@ public class RealFn {
     }
     public static Value RFloor(Value a) { return IntValue.gen(d(a).setScale(0, RoundingMode.FLOOR).intValueExact()); }
     public static Value RCeil(Value a) { return IntValue.gen(d(a).setScale(0, RoundingMode.CEILING).intValueExact()); }
+    /** (a * b) mod n for non-negative 32-bit a, b and positive n, computed in 64 bits (TLC integers are 32-bit). */
+    public static Value RMulMod(Value a, Value c, Value n) { return IntValue.gen((int) (((long) iv(a) * (long) iv(c)) % (long) iv(n))); }
     public static Value RCosTurn(Value k, Value n) { return s(cosSinTurn(iv(k), iv(n))[0]); }
     public static Value RSinTurn(Value k, Value n) { return s(cosSinTurn(iv(k), iv(n))[1]); }
     /** P(longest run of ones in a uniformly random m-bit block <= r), exact rational rounded to 45 digits. */
